@@ -135,10 +135,19 @@ func errClass(err error) string {
 	return fmt.Sprintf("(Err (EOther %d))", status.Code(err))
 }
 
+// A call that has not returned by the deadline counts as hanging.  The deadline is generous because
+// disk.Put fsyncs and the machine may be heavily loaded; after a first hang it is shortened.
+var writeTimeout = 45 * time.Second
+
 // one real Write call: returns the Coq status term, ok, committed size
-func (f *fixture) write(msgs []msg) (string, bool, int64) {
-	ctx, cancel := context.WithTimeout(context.Background(), 4*time.Second)
+func (f *fixture) write(msgs []msg) (st string, ok bool, committed int64) {
+	ctx, cancel := context.WithTimeout(context.Background(), writeTimeout)
 	defer cancel()
+	defer func() {
+		if strings.HasPrefix(st, "(Hang") {
+			writeTimeout = 3 * time.Second
+		}
+	}()
 	w, err := f.bs.Write(ctx)
 	if err != nil {
 		return errClass(err), false, 0
@@ -385,7 +394,7 @@ func runWrite(rep *Report, idx int, w wcase) (string, string) {
 		}
 		return int64(len(b)) == w.declSize && sha(b) == w.declHash
 	}
-	// the empty digest: Put only probes one byte of its reader (and ignores a read error)
+	// the empty digest: Put only probes one byte of its reader: a byte -> BadRequest, a read error -> Internal
 	emptyDigest := w.nameOK && w.declSize == 0 && w.declHash == emptySha
 	putErr, nilEarly := "EInternal", false
 	accepts := func(b []byte) bool {
@@ -393,16 +402,18 @@ func runWrite(rep *Report, idx int, w wcase) (string, string) {
 			return valid(b)
 		}
 		if !w.z {
+			if len(b) > 0 {
+				putErr = "EBadRequest"
+			}
 			return len(b) == 0
 		}
 		n, err := probeByte(b)
-		if n == 0 && err != nil && err != io.EOF {
-			nilEarly = true // undecodable: Put returns nil, possibly before the end of the stream
+		if n > 0 {
+			putErr = "EBadRequest"
+		} else {
+			putErr = "EInternal"
 		}
-		return n == 0
-	}
-	if emptyDigest {
-		putErr = "EBadRequest"
+		return n == 0 && err == io.EOF
 	}
 	validAt := []bool{valid(nil)}
 	pok = append(pok, CB(accepts(nil)))
@@ -410,6 +421,17 @@ func runWrite(rep *Report, idx int, w wcase) (string, string) {
 		acc = append(acc, m.data...)
 		validAt = append(validAt, valid(acc))
 		pok = append(pok, CB(accepts(acc)))
+	}
+
+	{ // Put's error class for what it is actually handed: the data of the consumed messages
+		var cacc []byte
+		for _, m := range w.msgs {
+			cacc = append(cacc, m.data...)
+			if m.fin {
+				break
+			}
+		}
+		accepts(cacc)
 	}
 
 	// ---- direct oracle: the property's statement
@@ -432,6 +454,9 @@ func runWrite(rep *Report, idx int, w wcase) (string, string) {
 	fail := func(what string) { rep.Fail(idx, what, text) }
 	if strings.HasPrefix(st, "(Hang") {
 		fail("Write call did not return (handler hangs)")
+	}
+	if ok && w.prestore && w.nameOK && w.declHash == sha(w.blob) && w.declSize != int64(len(w.blob)) {
+		fail(fmt.Sprintf("a Write declaring the hash of a stored blob with another size (%d instead of %d) was acknowledged", w.declSize, len(w.blob)))
 	}
 	switch {
 	case len(w.msgs) == 0:
@@ -542,6 +567,50 @@ func bsDriver(seed uint64, n int, outV, outJSON string, _ []string) {
 			msgs: []msg{{name: wname("", pr.z, emptySha, 0, ""), data: pr.data, fin: true}}, what: pr.what})
 		add(coq, text, true)
 		rep.Count("write.empty-digest-probe")
+	}
+
+	// ---- a blob present as (H, n): Writes declaring H with another size must not be acknowledged
+	// (neither by the "already exists" shortcut nor otherwise), with data of the declared or of the
+	// real length, over blobs/ and compressed-blobs/zstd/; QueryWriteStatus with a wrong size: incomplete
+	for i := 0; i < 16; i++ {
+		f := fz
+		if i%2 == 1 {
+			f = fu
+		}
+		blob := freshBlob(r, 6)
+		n := int64(len(blob))
+		h := sha(blob)
+		decl := []int64{n + 1, n - 1, 2 * n, 1}[i%4]
+		z := (i/4)%2 == 1
+		data := blob // the real blob
+		if i/8 == 1 { // data of the declared length
+			data = append(append([]byte{}, blob...), blob...)[:decl]
+		}
+		payload := data
+		if z {
+			payload = zenc.EncodeAll(data, nil)
+		}
+		w := wcase{f: f, z: z, blob: blob, declHash: h, declSize: decl, nameOK: true, prestore: true,
+			msgs: []msg{{name: wname("", z, h, decl, ""), data: payload, fin: true}}, what: "existing-hash-other-size"}
+		coq, text := runWrite(rep, len(cases), w)
+		rep.Count("write.existing-hash-other-size")
+		add(coq, text, true)
+		if i%4 == 0 {
+			name := wname("", z, h, decl, "")
+			resp, err := f.bs.QueryWriteStatus(context.Background(), &bytestream.QueryWriteStatusRequest{ResourceName: name})
+			rep.Evaluations++
+			obs := ""
+			if err != nil {
+				obs = errClass(err)
+			} else {
+				obs = fmt.Sprintf("(Ok (%s, %s))", CZ(resp.CommittedSize), CB(resp.Complete))
+			}
+			text := fmt.Sprintf("QueryWriteStatus(%q) for a blob present with size %d -> %s", name, n, obs)
+			if err != nil || resp.Complete || resp.CommittedSize != 0 {
+				rep.Fail(len(cases), "QueryWriteStatus reports a blob complete under a size it does not have", text)
+			}
+			add(fmt.Sprintf("BQws %s %s %s", CB(f.present(h, decl)), cstr(name), obs), text, true)
+		}
 	}
 
 	// ---- exhaustive part: every cut of a 1..3 byte payload into 1..4 messages, finish_write
